@@ -34,6 +34,9 @@ pub struct UserSpec {
     pub role: Role,
     /// per event type: (read, write) grants (only for users without a role)
     pub grants: Vec<(bool, bool)>,
+    /// further GRANT statements issued after those: (read, write, event types in the order they are listed)
+    #[serde(default)]
+    pub stmts: Vec<(bool, bool, Vec<usize>)>,
 }
 
 #[derive(Clone, Debug, Serialize, Deserialize, PartialEq)]
@@ -82,6 +85,8 @@ pub enum Step {
     RevokeKey { user: usize },
     /// admin revokes a grant
     RevokeGrant { user: usize, ty: usize, read: bool },
+    /// admin issues one GRANT / REVOKE statement over a list of event types
+    AdminGrant { user: usize, read: bool, write: bool, types: Vec<usize>, revoke: bool },
 }
 
 #[derive(Clone, Debug, Serialize, Deserialize)]
@@ -147,7 +152,9 @@ struct Excl {
 fn case_strategy(tier: Tier, ex: Excl) -> BoxedStrategy<Case> {
     let ids = user_ids(ex.bypass_id);
     let role = prop_oneof![3 => Just(Role::None), 1 => Just(Role::Admin), 1 => Just(Role::ReadOnly), 1 => Just(Role::Viewer), 1 => Just(Role::Editor), 1 => Just(Role::WriteOnly)];
-    let user = (prop::sample::select(ids), role, prop::collection::vec((any::<bool>(), any::<bool>()), 2)).prop_map(|(id, role, grants)| UserSpec { id: id.to_string(), grants: if role == Role::None { grants } else { vec![(false, false); 2] }, role });
+    let type_list = prop::sample::select(vec![vec![0usize], vec![1], vec![0, 1], vec![1, 0], vec![0, 0, 1]]);
+    let stmt = (any::<bool>(), any::<bool>(), type_list.clone()).prop_map(|(r, w, t)| if !r && !w { (true, false, t) } else { (r, w, t) });
+    let user = (prop::sample::select(ids), role, prop::collection::vec((any::<bool>(), any::<bool>()), 2), prop::collection::vec(stmt, 0..=2)).prop_map(|(id, role, grants, stmts)| UserSpec { id: id.to_string(), grants: if role == Role::None { grants } else { vec![(false, false); 2] }, stmts: if role == Role::None { stmts } else { vec![] }, role });
     (prop::collection::vec(user, 1..=3))
         .prop_flat_map(move |mut users| {
             let mut seen = BTreeSet::new();
@@ -163,6 +170,7 @@ fn case_strategy(tier: Tier, ex: Excl) -> BoxedStrategy<Case> {
                 20 => (0..n, prop::sample::select(kinds), 0usize..2, cred, any::<bool>()).prop_map(|(user, kind, ty, cred, tricky_payload)| Step::Do { user, kind, ty, cred, tricky_payload }),
                 1 => (1..n).prop_map(|user| Step::RevokeKey { user }),
                 1 => (1..n, 0usize..2, any::<bool>()).prop_map(|(user, ty, read)| Step::RevokeGrant { user, ty, read }),
+                2 => (1..n, any::<bool>(), any::<bool>(), prop::sample::select(vec![vec![0usize], vec![1], vec![0, 1], vec![1, 0]]), prop::bool::weighted(0.3)).prop_map(|(user, r, w, types, revoke)| Step::AdminGrant { user, read: r || !w, write: w, types, revoke }),
             ];
             let kinds2 = vec![Kind::Store, Kind::Query, Kind::ReplayTyped, Kind::Define, Kind::CreateUser];
             let expired = crate::hist::opt_w(0.15, (0..n, prop::sample::select(kinds2), 0usize..2));
@@ -276,6 +284,29 @@ fn run_case(c: &Case, rep: &mut CaseReport) -> Verdict {
                 grants.insert((u.id.clone(), ti), (*rd, *wr));
             }
         }
+        for (rd, wr, tys) in &u.stmts {
+            let mut perms = vec![];
+            if *rd {
+                perms.push("READ");
+            }
+            if *wr {
+                perms.push("WRITE");
+            }
+            let names: Vec<&str> = tys.iter().map(|t| TYPES[*t % 2]).collect();
+            let r = match send(admin_cmd(&format!("GRANT {} ON {} TO {}", perms.join(", "), names.join(", "), u.id)), &mut log) {
+                Ok(r) => r,
+                Err(v) => return v,
+            };
+            if !r.starts_with("200") {
+                return Verdict::fail("admin-setup-failed", json!({"what": "GRANT (multi-type)", "response": r, "log": log}));
+            }
+            rep.label("history:multi-type-grant");
+            for t in tys {
+                let e = grants.entry((u.id.clone(), *t % 2)).or_insert((false, false));
+                e.0 |= *rd;
+                e.1 |= *wr;
+            }
+        }
     }
     // some data per type, stored by the admin
     let mut stored: Vec<BTreeSet<i64>> = vec![BTreeSet::new(), BTreeSet::new()];
@@ -294,7 +325,7 @@ fn run_case(c: &Case, rep: &mut CaseReport) -> Verdict {
             }
         }
     }
-    let all_users: Vec<UserSpec> = std::iter::once(UserSpec { id: ADMIN.into(), role: Role::Admin, grants: vec![] }).chain(c.users.iter().cloned()).collect();
+    let all_users: Vec<UserSpec> = std::iter::once(UserSpec { id: ADMIN.into(), role: Role::Admin, grants: vec![], stmts: vec![] }).chain(c.users.iter().cloned()).collect();
     // a session token per user, obtained now
     let mut early_tokens: BTreeMap<String, String> = BTreeMap::new();
     let t_tokens = std::time::Instant::now();
@@ -314,6 +345,13 @@ fn run_case(c: &Case, rep: &mut CaseReport) -> Verdict {
         }
     }
     let mut steps: Vec<(Step, bool)> = c.steps.iter().cloned().map(|s| (s, false)).collect();
+    // closing permission matrix: every user x event type, one write probe and one read probe with valid credentials
+    for ui in 1..all_users.len() {
+        for ty in 0..2 {
+            steps.push((Step::Do { user: ui, kind: Kind::Store, ty, cred: Cred::Inline, tricky_payload: false }, false));
+            steps.push((Step::Do { user: ui, kind: Kind::Query, ty, cred: Cred::Inline, tricky_payload: false }, false));
+        }
+    }
     if let Some((user, kind, ty)) = &c.expired {
         steps.push((Step::Do { user: *user, kind: kind.clone(), ty: *ty, cred: Cred::EarlierToken, tricky_payload: false }, true));
     }
@@ -360,6 +398,39 @@ fn run_case(c: &Case, rep: &mut CaseReport) -> Verdict {
                 let e = grants.entry((u.id.clone(), *ty)).or_insert((false, false));
                 if *read { e.0 = false } else { e.1 = false }
                 rep.label("history:revoke-grant");
+            }
+            Step::AdminGrant { user, read, write, types, revoke } => {
+                let u = &all_users[*user % all_users.len()];
+                if u.id == ADMIN || u.role != Role::None || nonexistent.contains(&u.id) {
+                    continue;
+                }
+                let mut perms = vec![];
+                if *read {
+                    perms.push("READ");
+                }
+                if *write {
+                    perms.push("WRITE");
+                }
+                let names: Vec<&str> = types.iter().map(|t| TYPES[*t % 2]).collect();
+                let cmd = if *revoke { format!("REVOKE {} ON {} FROM {}", perms.join(", "), names.join(", "), u.id) } else { format!("GRANT {} ON {} TO {}", perms.join(", "), names.join(", "), u.id) };
+                let r = match send(admin_cmd(&cmd), &mut log) {
+                    Ok(r) => r,
+                    Err(v) => return v,
+                };
+                if !r.starts_with("200") {
+                    return Verdict::fail("permitted-admin-operation-denied", json!({"cmd": cmd, "response": r, "log": log}));
+                }
+                for t in types {
+                    let e = grants.entry((u.id.clone(), *t % 2)).or_insert((false, false));
+                    if *revoke {
+                        if *read { e.0 = false }
+                        if *write { e.1 = false }
+                    } else {
+                        e.0 |= *read;
+                        e.1 |= *write;
+                    }
+                }
+                rep.label(if *revoke { "history:multi-type-revoke" } else { "history:multi-type-grant" });
             }
             Step::Do { user, kind, ty, cred, tricky_payload } => {
                 let u = all_users[*user % all_users.len()].clone();
@@ -544,7 +615,7 @@ pub fn run(ctx: &Ctx) -> i32 {
     let mut report = Report::new(
         "C13",
         "exploration",
-        "generated (1-3 users with ids from everything the id validator admits - incl. look-alikes of the admin id, 'admin', 'no-auth', 'bypass' -, roles none / admin / read-only / viewer / editor / write-only, per-type READ / WRITE grants; 6-40 steps: a command of every kind (STORE, BATCH [STORE], QUERY, typed / untyped REPLAY, sequence query, aggregate, comparison (PLOT .. VS ..), REMEMBER, SHOW, FLUSH, DEFINE, CREATE USER, GRANT, REVOKE KEY, LIST USERS, SHOW PERMISSIONS) under an identity with one of ten credential forms (inline signature, connection AUTH + signed command, fresh session token, a session token obtained before later revocations, a session token used after the 2 s expiry has certainly passed, wrong key, truncated signature, signature of another command, no credentials, garbage token), payloads containing ' TOKEN ' and ':'; key and grant revocations in between). The worker runs the real TCP listener; every request is a socket conversation. Oracle on effects: a response never carries events of a type the requester may not read; a refused STORE leaves no event (checked by the admin), a permitted one does; admin-only operations succeed exactly for admins; revocation holds from the next request. Non-trivial: a non-admin identity issuing something other than STORE / QUERY / DEFINE.",
+        "generated (1-3 users with ids from everything the id validator admits - incl. look-alikes of the admin id, 'admin', 'no-auth', 'bypass' -, roles none / admin / read-only / viewer / editor / write-only, per-type READ / WRITE grants; 6-40 steps: a command of every kind (STORE, BATCH [STORE], QUERY, typed / untyped REPLAY, sequence query, aggregate, comparison (PLOT .. VS ..), REMEMBER, SHOW, FLUSH, DEFINE, CREATE USER, GRANT, REVOKE KEY, LIST USERS, SHOW PERMISSIONS) under an identity with one of ten credential forms (inline signature, connection AUTH + signed command, fresh session token, a session token obtained before later revocations, a session token used after the 2 s expiry has certainly passed, wrong key, truncated signature, signature of another command, no credentials, garbage token), payloads containing ' TOKEN ' and ':'; key and grant revocations in between). The worker runs the real TCP listener; every request is a socket conversation. Every history ends with a permission matrix: each user x event type gets one write probe and one read probe with valid credentials. Oracle on effects: a response never carries events of a type the requester may not read; a refused STORE leaves no event (checked by the admin), a permitted one does; admin-only operations succeed exactly for admins; revocation holds from the next request. Non-trivial: a non-admin identity issuing something other than STORE / QUERY / DEFINE.",
     );
     report.assumptions = vec!["reference policy: users have either a role or per-type grants (the interplay of both is documented ambiguously and not generated)".into()];
     let ex = Excl { bypass_id: ctx.open("auth.user_id_bypass"), unchecked_kinds: ctx.open("auth.commands_without_identity"), agg_ignores_type: ctx.open_any("agg.special_fields_skipped") };
